@@ -24,10 +24,12 @@ import (
 // Cold start: whatever a package initialises lazily happens on the first call, once per process, so the interleavings
 // of *first* calls can only be sampled in fresh processes. TestC17ColdStart re-executes this test binary; each child
 // lets 16 goroutines meet at a spin barrier and make the process's first calls into the writer package together.
-// Every goroutine works on keys of its own, so every sequential order of the same calls gives each call the same
-// answer and leaves the same final registry. The oracle is differential: a second fresh process makes the same calls
-// one after the other, and the concurrent process must report exactly what the sequential one reports (per call:
-// succeeded or not; per key afterwards: the driver registered during the run, a built-in driver, or nothing).
+// Every goroutine works on keys of its own. The oracle is differential: further fresh processes make the same calls
+// one after the other - in the order of the goroutine numbers, with the removal moved to the front, and with the
+// removal moved to the end (when the built-in drivers come into being is the library's business, so a removal may or
+// may not commute with the first lookup) - and the concurrent process must report what one of those sequential orders
+// reports (per call: succeeded or not; per key afterwards: the driver registered during the run, a built-in driver, or
+// nothing).
 const coldChildEnv = "VERIF_C17_COLD_CHILD"
 
 func init() {
@@ -36,14 +38,20 @@ func init() {
 	if v == "" {
 		return
 	}
-	sequential := strings.HasPrefix(v, "seq:")
-	scenario, _ := strconv.Atoi(strings.TrimPrefix(v, "seq:"))
-	fmt.Println("COLD-START-RESULT " + strings.Join(coldStartChild(scenario, sequential), " ;; "))
+	order := ""
+	if i := strings.Index(v, ":"); i >= 0 {
+		order, v = v[:i], v[i+1:]
+	}
+	scenario, _ := strconv.Atoi(v)
+	fmt.Println("COLD-START-RESULT " + strings.Join(coldStartChild(scenario, order), " ;; "))
 	os.Exit(0)
 }
 
-func coldStartChild(scenario int, sequential bool) []string {
+// order: "" = concurrently; "seq" = one after the other by goroutine number; "first" / "last" = the same with the
+// removal made first / last
+func coldStartChild(scenario int, order string) []string {
 	const ng = 16
+	sequential := order != ""
 	builtins := []formats.Format{formats.CDX10JSON, formats.CDX11JSON, formats.CDX12JSON, formats.CDX13JSON, formats.CDX14JSON, formats.CDX15JSON, formats.SPDX23JSON}
 	// rotate the roles over keys and goroutines with the scenario number
 	rot := func(i int) formats.Format { return builtins[(i+scenario)%len(builtins)] }
@@ -88,8 +96,17 @@ func coldStartChild(scenario int, sequential bool) []string {
 		}
 	}
 	if sequential {
+		remover := ((2-scenario)%ng + ng) % ng // the goroutine whose role is the removal
+		if order == "first" {
+			call(remover)
+		}
 		for g := 0; g < ng; g++ {
-			call(g)
+			if g != remover || order == "seq" {
+				call(g)
+			}
+		}
+		if order == "last" {
+			call(remover)
 		}
 	} else {
 		var wg sync.WaitGroup
@@ -154,6 +171,16 @@ func TestC17ColdStart(t *testing.T) {
 			}
 			want, sout, serr := run("seq:")
 			got, cout, cerr := run("")
+			if got != want && got != "" && want != "" && serr == nil && cerr == nil {
+				// some sequential order must explain the report: try the removal first and last as well
+				for _, o := range []string{"first:", "last:"} {
+					if alt, _, aerr := run(o); aerr == nil && alt == got {
+						want = alt
+						hx.Class("cold_start_explained_by_removal_" + strings.TrimSuffix(o, ":"))
+						break
+					}
+				}
+			}
 			hx.Eval()
 			hx.NonTrivial(hx.Digest("cold", scenario))
 			switch {
@@ -170,7 +197,7 @@ func TestC17ColdStart(t *testing.T) {
 				w, g := strings.Split(want, " ;; "), strings.Split(got, " ;; ")
 				for k := range w {
 					if k < len(g) && g[k] != w[k] {
-						diff = append(diff, fmt.Sprintf("concurrently {%s}, in every sequential order {%s}", g[k], w[k]))
+						diff = append(diff, fmt.Sprintf("concurrently {%s}, in the sequential orders tried {%s}", g[k], w[k]))
 					}
 				}
 				mu.Lock()
